@@ -138,12 +138,35 @@ def r2_fold(ctx, RULE='R2.mux'):
         head = isinstance(par, ast.BinOp) and isinstance(par.op, ast.Add) and \
             ast.unparse(par.left if par.right is c else par.right) == f'{p}[0]'
         ok = tail and head
+    iterative = False
+    if not rec:
+        # the same fold written as a loop: acc = L[0] (or L[-1]); for x in L[1:] (or L[:-1], possibly reversed): acc = acc + x | x + acc
+        from ..pattern import mstmt, mexpr
+        for lp in [n for n in walk_no_nested(f.node) if isinstance(n, ast.For)]:
+            it = lp.iter.args[0] if isinstance(lp.iter, ast.Call) and getattr(lp.iter.func, 'id', '') == 'reversed' and len(lp.iter.args) == 1 \
+                else lp.iter
+            rest = 'tail' if mexpr(f'{p}[1:]', it) is not None else ('init' if mexpr(f'{p}[:-1]', it) is not None else None)
+            x = lp.target.id if isinstance(lp.target, ast.Name) else None
+            if rest is None or x is None or len(lp.body) != 1 or lp.orelse:
+                continue
+            b = mstmt(f'V_acc = V_acc + {x}', lp.body[0]) or mstmt(f'V_acc = {x} + V_acc', lp.body[0])
+            if b is None:
+                continue
+            first = f'{p}[0]' if rest == 'tail' else f'{p}[-1]'
+            inits = [n for n in walk_no_nested(f.node) if isinstance(n, ast.Assign) and n.lineno < lp.lineno and
+                     mstmt(f"{b['V_acc']} = {first}", n) is not None]
+            rets = [n for n in walk_no_nested(f.node) if isinstance(n, ast.Return)]
+            det = ast.unparse(lp)[:120]
+            if len(inits) == 1 and len(rets) == 1 and ast.unparse(rets[0].value) == b['V_acc'] and rets[0].lineno > lp.end_lineno:
+                ok = iterative = True
+                rec = [lp]
     ctx.check(RULE, f'{site(f)} recursion', ok and len(rec) == 1, key(f, 'fold'),
               'the mux does not fold the whole list: it must be list[0] + mux(list[1:]) (every band between the first and the '
               'last would be dropped)', det)
     ev = Evaluator(repo, f, no_inline={f.name}).run_function()
     single = [v for pc, v, _ in ev.outcomes if isinstance(v, Rat) and vkey(v) == f"sub({p},'0')"]
-    ctx.check(RULE, f'{site(f)} single element', len(single) == 1, key(f, 'single'), 'a one-element list is not returned as is')
+    # (loop form: the accumulator starts as the first / last element and the loop ranges over the others - none for one element)
+    ctx.check(RULE, f'{site(f)} single element', len(single) == 1 or iterative, key(f, 'single'), 'a one-element list is not returned as is')
     ctx.check(RULE, f'{site(f)} empty list', any(isinstance(n.exc, ast.Call) and n.exc.func.id == 'ValueError' for pc, n in ev.raises
                                                      if isinstance(n.exc, ast.Call) and isinstance(n.exc.func, ast.Name)),
               key(f, 'empty'), 'an empty list does not raise ValueError')
